@@ -26,8 +26,8 @@ RULE = ("inputs = every registry over N style ids (basedOn of each style in ids 
         "sequences of AddStyle/RemoveStyle/CreateCustomStyle/queries/listings/Clone; judged step by step by StyleInh_Trace.tla")
 
 ALLOPS = {"AddStyle", "RemoveStyle", "Create", "Edit", "Resolve", "ToXML", "Info", "List", "MutRes", "CloneSwap", "CloneDrop",
-          "Clone", "OnClone"}
-KINDS = ["name", "case", "space"]     # StyleInh!AliasKinds
+          "Clone", "OnClone", "LoadXML"}
+KINDS = ["space", "name", "case", "label"]     # StyleInh!AliasKinds
 PAIR_OPS = {"AddStyle", "RemoveStyle", "Edit", "Resolve", "Clone", "OnClone"}
 
 
@@ -83,7 +83,8 @@ def account(ctx, obs, tag):
             if '"ev":"step"' not in line:
                 continue
             e = json.loads(line)
-            k = "%s:%s" % (e["op"]["op"], e["ret"])
+            o = e["op"]
+            k = "%s:%s" % ("OnClone(%s)" % o["o"]["op"] if o["op"] == "OnClone" else o["op"], e["ret"])
             ops[k] = ops.get(k, 0) + 1
             n += 1
     return n
@@ -201,10 +202,10 @@ def pipeline1(ctx, bg, cases_by):
     if q:
         reads = [reads[(ctx.seed + 1) % 2]]     # seed 1: Resolve
     d = 7 if q else 12
-    kinds = [KINDS[ctx.seed % 3]] if q else KINDS      # seed 1: case, 2: space, 3: name
+    kinds = [KINDS[ctx.seed % 4]] if q else KINDS      # seed 1: name, 2: case, 3: label, 4: space
     plans = [
         ("enum3", (enumcfg(ctx, "enum3.cfg", 3, ["compl"] if q else ["free"], ["plain"] if q else ["clone"]), "enum3"), dict(timeout=900)),
-        ("rmr2", (enumcfg(ctx, "rmr2.cfg", 2, ["compl"] if q else ["free"], ["rmr", "clone", "alias"] if q else ["rmr", "alias"],
+        ("rmr2", (enumcfg(ctx, "rmr2.cfg", 2, ["compl"] if q else ["free"], ["rmr", "clone", "alias", "xml"] if q else ["rmr", "alias", "xml"],
                           KINDS, reads), "rmr2"), dict(timeout=900)),
         ("enum4", (enumcfg(ctx, "enum4.cfg", 4, ["compl"], ["plain"]), "enum4"), dict(timeout=1200)),
         ("sim", (simcfg(ctx, "gen_sim.cfg", 3 if q else 4, d, kinds), "sim"),
@@ -251,6 +252,8 @@ def pipeline1(ctx, bg, cases_by):
     bounds["alias2"] = ("2 styles: every based-on graph in which a style refers to its parent by an alias (display name, other "
                         "letter case, added blank) of a style x masks x every style id and every alias used as queried id: "
                         "Load, Resolve, ToXML, Info")
+    bounds["xml2"] = ("2 styles: every registry written as a styles part (XML) x each loader (ParseStylesFromXML, MergeStylesFromXML, "
+                      "LoadStylesFromDocument) x every queried style id: LoadXML, Resolve, ToXML, Info")
     if q:
         bounds["rmr2"] += "; and every registry x 3 queried ids with tail: clone ops, resolution on the clone"
     judged(exec_grouped(ctx, cases_of("rmr2"), "rmr2"), "rmr2", 2)
